@@ -201,7 +201,10 @@ class CFG:
             if self._loop_stack:
                 self._loop_stack[-1][1].append((n.id, "break"))
             return []
-        self._add_exc(n.id)
+        from .symeval import may_raise_stmt
+
+        if may_raise_stmt(st):
+            self._add_exc(n.id)
         return [(n.id, "next")]
 
     # ------------------------------------------------------------------ queries
